@@ -25,6 +25,16 @@ CHECKS = {
         note='Invalid => rejected is established over generated corruptions, not over all signatures. The interpreter is driven with a checker that knows all spent outputs (harness `direct`); the Instance '
              'path is sampled for BASE/WITNESS_V0. Three genuine defects were repaired by fix: commits.',
         design='5/C02'),
+    'C03': dict(
+        technique='differential property-based testing (Hypothesis) of whole spend sessions against an independent VerifyScript with independently signed funding/spending pairs',
+        text='Funding/spending pairs are synthesised for bare P2PK / multisig, P2PKH, P2SH (multisig and keyless scripts), P2WPKH, P2WSH (multisig and keyless), P2SH-wrapped segwit, taproot key path '
+             '(with/without annex) and script path (depth 0-5, CHECKSIG / CHECKSIGVERIFY / CHECKSIGADD / keyless / code-separator leaves), with decoy inputs and second inputs spending the same funding '
+             'transaction, signed by the reference signer, then optionally corrupted (15 kinds) and run under standard, policy-reduced and activation-reduced flag sets with auto / explicit / wrong / '
+             'out-of-range selection. The session verdict (set-up, no error to the end, final stack as validation requires) must equal the reference VerifyScript verdict; selected input, vout and amount '
+             'must come from the referenced output; bad selections must be refused; the six real-chain pairs are run through the harness and the real binary.',
+        note='Three classes are listed as known findings with narrow signatures (multi-input taproot, activation flags removed, unknown leaf version) and everything outside them is still compared. '
+             'Two genuine defects were repaired by fix: commits (witness items re-parsed as numbers, key path with annex).',
+        design='5/C03'),
     'C04': dict(
         technique='model-based stateful property testing (Hypothesis histories + complete history trees) with the tree as its own reference: live session vs fresh session advanced by the net step count',
         text='For generated sessions (IF nesting, alt stack, OP_CODESEPARATOR before mocked signature checks, ~201 counted ops, scriptSig->scriptPubKey->P2SH phases, real reference-signed '
